@@ -515,6 +515,13 @@ flow:
 }
 
 func quotaYAML(kind string, max int) string {
+	if kind == "fixed-tree" {
+		// a provider-wide quota with two internal limits: L1 is consulted by the Limiter of the quota flow, L2 by
+		// no flow at all - its requests are only counted (by the system flow the gateway builds for it)
+		return fmt.Sprintf("quotas:\n  - id: WQ\n    filter:\n      url: \"h.com/*\"\n    strategy:\n      fixed_window:\n        max: 1000000\n        interval: 1\n        interval_unit: hour\n"+
+			"internal_limits:\n  - id: L1\n    parent_id: WQ\n    strategy:\n      fixed_window:\n        max: %d\n        interval: 1\n        interval_unit: hour\n"+
+			"  - id: L2\n    parent_id: WQ\n    strategy:\n      fixed_window:\n        max: 1000000\n        interval: 1\n        interval_unit: hour\n", max)
+	}
 	if kind == "concurrent" {
 		return fmt.Sprintf("quotas:\n  - id: WQ\n    filter:\n      url: \"h.com/*\"\n    strategy:\n      concurrent:\n        max_request_count: %d\n        request_expiration_sec: 60\n        gc_interval_sec: 30\n", max)
 	}
@@ -553,7 +560,11 @@ func runWorkload(w workload) (overlap bool, err error) {
 	}
 	defer dir.Remove()
 	_ = dir.WriteQuota("q.yaml", quotaYAML(w.Quota, w.Max))
-	_ = dir.WriteFlow("q.yaml", quotaFlow)
+	if w.Quota == "fixed-tree" {
+		_ = dir.WriteFlow("q.yaml", strings.Replace(quotaFlow, "value: WQ", "value: L1", 1))
+	} else {
+		_ = dir.WriteFlow("q.yaml", quotaFlow)
+	}
 	_ = dir.WriteFlow("b.yaml", branchFlow)
 	for i := 1; i <= 3; i++ {
 		_ = dir.WriteFlow(fmt.Sprintf("w%d.yaml", i), wildFlow(i))
@@ -697,7 +708,7 @@ func runWorkload(w workload) (overlap bool, err error) {
 			}
 		}
 	}
-	if w.Quota == "fixed" {
+	if w.Quota == "fixed" || w.Quota == "fixed-tree" {
 		want := quotaTxns
 		if int64(w.Max) < want {
 			want = int64(w.Max)
@@ -728,6 +739,38 @@ func TestWorkloads(t *testing.T) {
 			PerG:       rapid.IntRange(1, 12).Draw(t, "per"),
 			Metrics:    rapid.Bool().Draw(t, "metrics"),
 			Reload:     rapid.Bool().Draw(t, "reload"),
+		}
+		r.Case()
+		r.Class("quota=" + w.Quota)
+		overlap, err := runWorkload(w)
+		if err != nil {
+			if _, infra := err.(infraErr); infra {
+				fmt.Println(err.Error())
+				t.Fatalf("%v", err)
+			}
+			functionalTestFailure.Store(true)
+			t.Fatalf("%s", r.Fail(w, "%v", err))
+		}
+		if overlap {
+			r.NonTrivial(ev.JSON(w), func() any { return w })
+		}
+	})
+}
+
+// TestLongWorkloads: the same workloads with thousands of transactions inside one quota window (the other unit
+// stops at 192), on a quota tree whose second internal limit is only counted: state that a quota keeps per
+// transaction is then shared by thousands of transactions, and clearing any of it while its transaction is still
+// between two steps of the Limiter shows as a refusal no serial order gives.
+func TestLongWorkloads(t *testing.T) {
+	r := ev.New(t, "C18")
+	rapid.Check(t, func(t *rapid.T) {
+		w := workload{
+			Quota:      rapid.SampledFrom([]string{"fixed-tree", "fixed-tree", "fixed", "concurrent"}).Draw(t, "quota"),
+			Max:        rapid.SampledFrom([]int{5, 1000, 100000}).Draw(t, "max"),
+			Goroutines: rapid.IntRange(8, 16).Draw(t, "goroutines"),
+			PerG:       rapid.IntRange(150, 400).Draw(t, "per"),
+			Metrics:    rapid.Bool().Draw(t, "metrics"),
+			Reload:     false,
 		}
 		r.Case()
 		r.Class("quota=" + w.Quota)
